@@ -37,6 +37,23 @@ from . import common as C
 from . import valid_corr as VC
 
 
+
+def _flag_get(V) -> bool:
+    """the validation switch as the field setters see it (a ContextVar today; any object with `get()` after a rewrite)"""
+    try:
+        return bool(V._VALIDATION_ENABLED.get())
+    except Exception:  # noqa: BLE001
+        return True
+
+
+def _flag_force_on(V):
+    """start a case with validation on, whatever an earlier case left behind (best effort: only a ContextVar can be set)"""
+    try:
+        V._VALIDATION_ENABLED.set(True)
+    except Exception:  # noqa: BLE001
+        pass
+
+
 def leaves(W: VC.World, cls, base: int = 0, path: Tuple = ()) -> List[Tuple[Tuple, str, tuple, int]]:
     """flatten a class to its leaf descriptor fields: [(path, name, fty, absolute offset)]"""
     out = []
@@ -337,7 +354,7 @@ def run_timecode_case(cid: str, cls, m) -> List[str]:
     (a case of its own: the driver reports the first false clause of a case only)"""
     from pyrtma.message import Message, get_header_cls
     W = VC.world()
-    W.V._VALIDATION_ENABLED.set(True)
+    _flag_force_on(W.V)
     hc = get_header_cls(True)
     h = hc()
     h.msg_type, h.num_data_bytes, h.src_mod_id, h.dest_mod_id = cls.type_id, ctypes.sizeof(cls), 11, 7
@@ -369,7 +386,7 @@ def run_case(cid: str, cls, m) -> List[str]:
     from pyrtma.message import Message, get_header_cls, _msg_defs
     from pyrtma.message_data import MessageData
     from pyrtma.exceptions import InvalidMessageDefinition
-    W.V._VALIDATION_ENABLED.set(True)
+    _flag_force_on(W.V)
     b0 = bytes(m)
     lines = [f"SER {cid}"]
     d = m.to_dict()
